@@ -47,6 +47,9 @@ def gate_library(rng=None):
     gl += [cirq.ControlledGate(cirq.rx(2 * np.pi)), cirq.ControlledGate(cirq.ry(-2 * np.pi)), cirq.ControlledGate(cirq.rz(6 * np.pi)), cirq.ControlledGate(cirq.rz(np.pi)),
            cirq.ControlledGate(cirq.CZPowGate(exponent=1, global_shift=1)), cirq.ControlledGate(cirq.CZPowGate(exponent=2, global_shift=-0.5)),
            cirq.ControlledGate(cirq.rx(2 * np.pi), num_controls=2), cirq.ControlledGate(cirq.XPowGate(exponent=1, global_shift=1), control_values=[0])]
+    _a, _b, _c = cirq.LineQubit.range(3)
+    gl += [cirq.CliffordGate.CNOT, cirq.CliffordGate.CZ, cirq.CliffordGate.SWAP, cirq.CliffordGate.from_op_list([cirq.H(_a), cirq.CNOT(_a, _b), cirq.S(_b)], [_a, _b]),
+           cirq.CliffordGate.from_op_list([cirq.CNOT(_c, _a), cirq.S(_a), cirq.H(_b), cirq.CZ(_b, _c)], [_a, _b, _c]), cirq.SingleQubitCliffordGate.X_sqrt, cirq.SingleQubitCliffordGate.H]
     return gl
 
 
@@ -148,6 +151,31 @@ def standin_protocols(tier, seed):
                     continue
                 if not np.allclose(dm.target_tensor.reshape(2 ** n, 2 ** n), u @ np.outer(psi, psi.conj()) @ u.conj().T, atol=1e-6):
                     bad("act_on(DensityMatrixSimulationState) differs from U rho U^dagger", gate)
+            # (d') act_on of the stabilizer states (CH form and tableau) for operations that claim a stabilizer effect: the operation's qubits sit at
+            #      arbitrary (also descending) axes of a larger register that holds an entangled stabilizer state
+            if all(d == 2 for d in shape) and 1 <= n <= 3 and cirq.has_stabilizer_effect(op):
+                extra = cirq.NamedQubit("spectator")
+                reg = list(qs) + [extra]
+                rng.shuffle(reg)
+                prefix = [cirq.H(reg[0])] + [cirq.CNOT(reg[0], x) for x in reg[1:]] + [cirq.S(reg[-1]), cirq.H(reg[1])]
+                psi0 = cirq.Circuit(prefix).final_state_vector(qubit_order=reg, dtype=np.complex128)
+                want_psi = cirq.Circuit(prefix, op).final_state_vector(qubit_order=reg, dtype=np.complex128)
+                ch = cirq.StabilizerChFormSimulationState(qubits=reg, prng=np.random.RandomState(0), initial_state=0)
+                tb = cirq.CliffordTableauSimulationState(cirq.CliffordTableau(len(reg)), qubits=reg, prng=np.random.RandomState(0))
+                try:
+                    for o in prefix + [op]:
+                        cirq.act_on(o, ch)
+                        cirq.act_on(o, tb)
+                except TypeError:
+                    ch = tb = None   # a claimed stabilizer effect without a stabilizer route: reported by the predicate checks
+                if ch is not None:
+                    if not np.allclose(ch.state.state_vector(), want_psi, atol=1e-6):
+                        bad("act_on(StabilizerChFormSimulationState) differs from unitary() (phase included)", gate, register=list(map(repr, reg)))
+                    for stab in tb.tableau.stabilizers():
+                        M = cirq.unitary(stab)
+                        if not np.allclose(M @ want_psi, want_psi, atol=1e-6):
+                            bad("act_on(CliffordTableauSimulationState): a stabilizer of the tableau does not stabilise U|psi>", gate, register=list(map(repr, reg)))
+                            break
             # (e) wrappers
             if not np.allclose(cirq.unitary(op.with_tags("t")), u, atol=1e-9):
                 bad("with_tags changed the unitary", gate)
